@@ -234,7 +234,7 @@ pub fn history(
     let mut cfg = gen_cfg(&mut g);
     cfg_tweak(&mut cfg, &mut g);
     let id = VId { a: 9, g: 1 + g.below(2) as u16, k: g.below(4) as u8, pad: 0 };
-    let mut inst = Inst::new(id, &cfg, g.next(), g.below(4) as u8, g.below(256) as u8);
+    let mut inst = Inst::new(id, &cfg, g.next(), g.below(6) as u8, g.below(256) as u8);
     let mut pending: Vec<(u128, MTimer)> = vec![];
     let mut now: u128 = 0;
     let (pk, plen) = pick_prelude(&mut g);
@@ -355,7 +355,7 @@ pub fn c06(seed: u64, budget: u64) -> FOut {
         let mut g = G::new(hs);
         let cfg = gen_cfg(&mut g);
         let id = VId { a: 9, g: 1 + g.below(2) as u16, k: g.below(4) as u8, pad: 0 };
-        let mut inst = Inst::new(id, &cfg, g.next(), g.below(4) as u8, g.below(256) as u8);
+        let mut inst = Inst::new(id, &cfg, g.next(), g.below(6) as u8, g.below(256) as u8);
         let mut pending: Vec<(u128, MTimer)> = vec![];
         let (pk, plen) = pick_prelude(&mut g2);
         for stepno in 0..400 + plen {
@@ -881,7 +881,7 @@ pub fn c17(seed: u64, budget: u64) -> FOut {
         let cfg = gen_cfg(&mut g);
         let id = VId { a: 9, g: 1, k: g.below(4) as u8, pad: 0 };
         let rng_seed = g.next();
-        let (mode, mask) = (g.below(4) as u8, g.below(256) as u8);
+        let (mode, mask) = (g.below(6) as u8, g.below(256) as u8);
         let mut a = Inst::new(id, &cfg, rng_seed, mode, mask);
         let mut pending: Vec<(u128, MTimer)> = vec![];
         let mut inputs: Vec<Input> = vec![];
